@@ -196,6 +196,18 @@ Theorem restart_replay_same_membership : forall norm ordered od1 k1 od2 k2 r l1 
 Proof. exact restart_replay_same_membership_proved. Qed.
 Print Assumptions restart_replay_same_membership.
 
+(* --- replica kind ------------------------------------------------------ *)
+(* The model's replica (sm_run) has no "kind" input: a replica started as a full
+   member, with config.IsNonVoting or with config.IsWitness computes the same
+   verdicts and membership from the same log (replica_membership_is_function_of_log
+   above is that statement). The only per-replica parameter is [ordered]; in the
+   code it is the third argument of newMembership in rsm.NewStateMachine, which
+   genmodel checks to be exactly cfg.OrderedConfigChange (GenC07.v), a shard-wide
+   setting. The harness feeds one log to real StateMachines of the three kinds. *)
+Theorem ordered_flag_independent_of_replica_kind : membership_ordered_is_config_ordered = true.
+Proof. exact ordered_flag_is_config_flag. Qed.
+Print Assumptions ordered_flag_independent_of_replica_kind.
+
 (* a request that is not applied leaves the membership untouched *)
 Theorem rejected_request_changes_nothing : forall norm ordered m r m' v,
   step norm ordered m r = (m', v) -> v <> VApplied -> m' = m.
